@@ -1,6 +1,7 @@
 (* Proofs/PCookie.v — the session cookie read back: by an independent RFC 6265 reading of the Set-Cookie
    value (Http/SetCookie.v) and by the service's own Cookie-header decoder. *)
 From AS Require Import Base.Str Base.StrFacts Http.Cookie Http.SetCookie.
+From Coq Require Import ZifyBool ZifyNat.
 
 (* bytes that may appear in a cookie name part / id without changing how either parser splits:
    printable ASCII except ';' and '=' and space *)
@@ -10,7 +11,7 @@ Fixpoint cookie_safe (s : string) : bool :=
   match s with EmptyString => true | String a s' => safe_char a && cookie_safe s' end.
 
 Lemma safe_char_facts a : safe_char a = true ->
-  Ascii.eqb a ";"%char = false /\ Ascii.eqb a "="%char = false /\ is_space a = false.
+  Ascii.eqb a ";"%char = false /\ Ascii.eqb a "="%char = false /\ is_space a = false /\ (nat_of_ascii a < 128)%nat.
 Proof.
   unfold safe_char, is_space. intros H.
   repeat (apply andb_prop in H as [H ?]).
@@ -22,18 +23,20 @@ Proof.
   - apply Bool.orb_false_iff. split.
     + apply Bool.andb_false_iff. right. apply Nat.leb_gt. lia.
     + apply Nat.eqb_neq. lia.
+  - lia.
 Qed.
 
-Definition no_space (s : string) : Prop := forall a, In a (list_of_str s) -> is_space a = false.
+(* no white-space byte and no byte that could start or continue a multi-byte space *)
+Definition no_space (s : string) : Prop := forall a, In a (list_of_str s) -> is_space a = false /\ (nat_of_ascii a < 128)%nat.
 
 Lemma safe_no_char s : cookie_safe s = true ->
   has_char ";"%char s = false /\ has_char "="%char s = false /\ no_space s.
 Proof.
   induction s as [|a s IH]; cbn [cookie_safe has_char]; intros H.
-  - repeat split. intros a [].
-  - apply andb_prop in H as [Ha Hs]. destruct (safe_char_facts a Ha) as [H1 [H2 H3]].
-    destruct (IH Hs) as [I1 [I2 I3]]. rewrite H1, H2. repeat split; try assumption.
-    intros b [<-|Hb]; [exact H3 | apply I3; exact Hb].
+  - split; [reflexivity|]. split; [reflexivity|]. intros x [].
+  - apply andb_prop in H as [Ha Hs]. destruct (safe_char_facts a Ha) as [H1 [H2 [H3 H4]]].
+    destruct (IH Hs) as [I1 [I2 I3]]. rewrite H1, H2. split; [assumption|]. split; [assumption|].
+    intros b [<-|Hb]; [split; assumption | apply I3; exact Hb].
 Qed.
 
 (* trimming a string without space bytes at either end *)
@@ -52,16 +55,33 @@ Proof. unfold string_rev. rewrite string_rev_acc_spec. cbn [list_of_str]. apply 
 Lemma string_rev_involutive s : string_rev (string_rev s) = s.
 Proof. apply list_of_str_inj. rewrite !string_rev_list. apply rev_involutive. Qed.
 
+Lemma space2_low a b : (nat_of_ascii a < 128)%nat -> space2 a b = false.
+Proof. unfold space2. intros H. lia. Qed.
+Lemma space2_low_r a b : (nat_of_ascii b < 128)%nat -> space2 a b = false.
+Proof. unfold space2. intros H. lia. Qed.
+Lemma space3_low a b c : (nat_of_ascii a < 128)%nat -> space3 a b c = false.
+Proof. unfold space3. intros H. lia. Qed.
+Lemma space3_low_r a b c : (nat_of_ascii c < 128)%nat -> space3 a b c = false.
+Proof. unfold space3. intros H. lia. Qed.
+
 Lemma trim_left_no_space s : no_space s -> trim_left s = s.
 Proof.
-  destruct s as [|a s]; [reflexivity|]. intros H. cbn [trim_left]. rewrite (H a); [reflexivity | left; reflexivity].
+  destruct s as [|a s]; [reflexivity|]. intros H. destruct (H a (or_introl eq_refl)) as [H1 H2].
+  cbn [trim_left]. rewrite H1. destruct s as [|b s]; [reflexivity|]. rewrite (space2_low a b H2).
+  destruct s as [|c s]; [reflexivity|]. rewrite (space3_low a b c H2). reflexivity.
+Qed.
+Lemma trim_left_rev_no_space s : no_space s -> trim_left_rev s = s.
+Proof.
+  destruct s as [|a s]; [reflexivity|]. intros H. destruct (H a (or_introl eq_refl)) as [H1 H2].
+  cbn [trim_left_rev]. rewrite H1. destruct s as [|b s]; [reflexivity|]. rewrite (space2_low_r b a H2).
+  destruct s as [|c s]; [reflexivity|]. rewrite (space3_low_r c b a H2). reflexivity.
 Qed.
 Lemma no_space_rev s : no_space s -> no_space (string_rev s).
 Proof. intros H a Ha. rewrite string_rev_list in Ha. apply in_rev in Ha. apply H. exact Ha. Qed.
 Lemma trim_space_no_space s : no_space s -> trim_space s = s.
 Proof.
   intros H. unfold trim_space. rewrite (trim_left_no_space s H).
-  rewrite (trim_left_no_space _ (no_space_rev s H)). apply string_rev_involutive.
+  rewrite (trim_left_rev_no_space _ (no_space_rev s H)). apply string_rev_involutive.
 Qed.
 
 Lemma list_of_str_app s t : list_of_str (s ++ t) = (list_of_str s ++ list_of_str t)%list.
@@ -158,7 +178,7 @@ Proof.
     by (rewrite !has_char_app, N1, V1; reflexivity).
   rewrite (split_on_absent _ _ S1). cbn [decode_pieces]. unfold cookie_piece.
   assert (NS : no_space (cookie_name prefix ++ "=" ++ sid)).
-  { apply no_space_app; [exact N3|]. apply no_space_app; [|exact V3]. intros a [<-|[]]. reflexivity. }
+  { apply no_space_app; [exact N3|]. apply no_space_app; [|exact V3]. intros a [<-|[]]. split; [reflexivity | cbn; lia]. }
   rewrite (trim_space_no_space _ NS).
   change (cookie_name prefix ++ "=" ++ sid) with (cookie_name prefix ++ String "="%char sid).
   rewrite (split_on_app_char _ _ _ N2), (split_on_absent _ _ V2).
